@@ -125,7 +125,9 @@ def run(ctx):
     distinct = set()
     slines = [hx(s) for s in specs]
     for cmd, what in (("spec", "spec.Parse"), ("ebnfast", "the typed-tree parser (ebnf ast.Parse)"), ("accept", "spec.Parse + Spec.DFA")):
-        res = ctx.run_impl_par(cmd, slines, timeout=900, isolate=True)
+        if len(ctx.violations) >= 5:
+            break           # five inputs are reported at most; isolating hanging cases costs a time-out each
+        res = ctx.run_impl_par(cmd, slines, timeout=200, isolate=True)
         for s, r in zip(specs, res):
             c = classify(r)
             if r.startswith("OK") or r.startswith("DFAERR"):
